@@ -1,6 +1,8 @@
 package main
 
 import (
+	"bytes"
+	"encoding/binary"
 	"encoding/json"
 	"fmt"
 	"math/big"
@@ -651,6 +653,18 @@ func runC14(o Opts) error {
 			c14of(s, "Segments", t, z, "of/segments")
 		}
 	}
+	// a process zone whose clocks go forward TODAY (synthetic: a POSIX rule anchored on today's day of the year): plain
+	// times of day, the skipped hour included, still parse to themselves - a time of day is not a moment of today
+	if loc, hour, ok := zoneWithDSTStartingToday(); ok {
+		time.Local = loc
+		for _, hh := range []int{hour - 1, hour, hour + 1} {
+			for _, mm := range []int{0, 30, 59} {
+				c14text(s, 2, fmt.Sprintf("%02d:%02d:%02d", hh, mm, 7), "text/TimeFromString-dst-starts-today")
+				c14text(s, 1, fmt.Sprintf("%02d:%02d", hh, mm), "text/HHmmFromString-dst-starts-today")
+			}
+		}
+		s.Extra["zone_with_dst_starting_today"] = "exercised"
+	}
 	recheckKept(s)
 	time.Local = time.UTC
 	s.Extra["zones"] = len(zones)
@@ -660,3 +674,47 @@ func runC14(o Opts) error {
 }
 
 func mustJSON(v any) []byte { b, _ := json.Marshal(v); return b }
+
+// a Location in which today is the day the clocks go forward by one hour at 02:00 (12:00 around the turn of the year)
+func zoneWithDSTStartingToday() (*time.Location, int, bool) {
+	now := time.Now().UTC()
+	offset := 12 - now.Hour() // hours east of UTC, so that it is about noon there
+	today := now.Add(time.Duration(offset) * time.Hour)
+	start := today.YearDay() - 1
+	end := (start + 180) % 365
+	hour := 2
+	if start == 0 || start >= 364 {
+		hour = 12
+	}
+	rule := fmt.Sprintf("SST%dSDT,%d/%d,%d/2", -offset, start, hour, end) // POSIX TZ: offsets positive WEST of UTC
+	var b bytes.Buffer
+	block := func(v2 bool) {
+		b.WriteString("TZif2")
+		b.Write(make([]byte, 15))
+		for _, n := range []uint32{0, 0, 0, 1, 1, 4} { // isutcnt, isstdcnt, leapcnt, timecnt, typecnt, charcnt
+			binary.Write(&b, binary.BigEndian, n)
+		}
+		if v2 {
+			binary.Write(&b, binary.BigEndian, int64(0))
+		} else {
+			binary.Write(&b, binary.BigEndian, int32(0))
+		}
+		b.WriteByte(0)
+		binary.Write(&b, binary.BigEndian, int32(offset*3600))
+		b.WriteByte(0)
+		b.WriteByte(0)
+		b.WriteString("SST\x00")
+	}
+	block(false)
+	block(true)
+	b.WriteString("\n" + rule + "\n")
+	loc, err := time.LoadLocationFromTZData("Synthetic/DST-starts-today", b.Bytes())
+	if err != nil {
+		return nil, 0, false
+	}
+	y, m, d := time.Now().In(loc).Date()
+	if hh, _, _ := time.Date(y, m, d, hour, 30, 0, 0, loc).Clock(); hh == hour { // the hour must be missing today
+		return nil, 0, false
+	}
+	return loc, hour, true
+}
